@@ -95,6 +95,11 @@ CLAIMED = {
          "The corruption space is a TLA+ model: 1,658 descriptors for PAR2 (bit flips per packet region, cuts at and inside every packet, emptied/garbage/deleted files, deleted subsets, every prefix of Create's writes torn at every packet boundary, with/without data damage) on which TLC checks that the reader model only ever reports intact blocks and needs an intact index; the harness maps every descriptor to byte offsets with its own tokenizer, adds the PAR1 analogue and seeded byte-level flips and cuts (about 2,850 cases quick, 13,000 thorough), and executes the real Verify and Repair in batch worker processes that announce each case, so that a panic, a fatal runtime error, the address-space limit or a hang is attributed to its case and re-run alone; TLC judges every event: terminated normally, any result reports no more usable recovery blocks / volumes / slices than independent observers find intact, Repair wrote only exact originals, success means restored.",
          "Error-versus-skip on damaged files left open as in the property; one base set per format.",
          "DESIGN.md section 5 C13"),
+ "C19": ("model_checking",
+         "MC_C19.tla: TLC enumerates the field x boundary-value / structural mutation space for PAR1 and PAR2 and classifies semantic validity; mutating reference writers re-checksum consistently; singles and seeded pairs run through real Verify/Repair in batch worker processes under an address-space limit; TLC judges crash, memory, declared-hash and validity clauses",
+         "The input space is a TLA+ model (343 single mutations: numeric fields x boundary values, removal/duplication of packet types, id list edits, wrong hashes, wrong-size recovery data, x index/volumes/all) with a truth-layer classification of which mutants still describe a valid set; the reference writers apply each mutation and re-checksum everything consistently so that only semantic validation can reject it; singles with data intact / the mutated file missing, plus seeded pairs, run through the real Verify and Repair in batch worker processes (each case announced, RLIMIT_AS 3 GiB, per-case time limit, solo re-run of a case that kills its worker); TLC judges every event: no panic / fatal error / hang, RSS growth within base + 64 x (bytes present + declared slice size), every file written matches the archive's own declared MD5 and length, nothing else modified, valid mutants verify clean and repair.",
+         "Memory measured by RSS growth per case; OOM within the allowance of a huge declared slice size is not counted; pairs are sampled.",
+         "DESIGN.md section 5 C19"),
 }
 
 NOT_YET = "check under construction in this round; not claimed until it runs green on the unchanged tree"
